@@ -39,6 +39,7 @@ class SurfaceSubdivision(Logger):
     def __init__(self, mesh : SurfaceMesh, verbose:bool = False):
         super().__init__("SurfaceSubdivision", verbose)
         self.mesh = mesh
+        self._input = mesh # the mesh object given by the caller
 
     def __enter__(self):
         self.mesh = RawMeshData(self.mesh)
@@ -47,7 +48,10 @@ class SurfaceSubdivision(Logger):
 
     def __exit__(self, exc_type, exc_val, exc_tb):
         self.mesh.prepare()
-        self.mesh = _instanciate_raw_mesh_data(self.mesh, 2)
+        # The mesh object given by the caller becomes the refined mesh (containers, connectivity and boundary data are rebuilt),
+        # so that it is never left half-updated.
+        self._input.__init__(self.mesh)
+        self.mesh = self._input
 
     @allowed_mesh_types(SurfaceMesh)
     def triangulate_face(self, face_id: int) :
@@ -245,6 +249,7 @@ class VolumeSubdivision(Logger):
     def __init__(self, mesh : VolumeMesh, verbose:bool=False):
         super().__init__("VolumeSubdivision", verbose=verbose)
         self.mesh = mesh
+        self._input = mesh # the mesh object given by the caller
         self.conn = None # connectivity
 
     def __enter__(self):
@@ -258,7 +263,10 @@ class VolumeSubdivision(Logger):
 
     def __exit__(self, exc_type, exc_value, tb):
         self.mesh.prepare()
-        self.mesh = _instanciate_raw_mesh_data(self.mesh, 3)
+        # The mesh object given by the caller becomes the refined mesh (containers, connectivity and boundary data are rebuilt),
+        # so that it is never left half-updated.
+        self._input.__init__(self.mesh)
+        self.mesh = self._input
 
     def split_cell_as_fan(self, cell_id:int):
         """
